@@ -80,6 +80,8 @@ def check_case(case):
     n_s = case.get('n_samples', 120000)
     M = case.get('n_ref', 600000)
     pool = NautilusPool(2) if case.get('pool') else None
+    if hasattr(b, 'reset'):
+        b.reset()             # counters start from zero: they must account for exactly what is drawn below
     try:
         if isinstance(b, Ellipsoid):
             S = np.asarray(b.sample(n_s))
@@ -90,6 +92,17 @@ def check_case(case):
     finally:
         if pool is not None:
             pool.pool.close()
+    # ---- exact accounting of the two rejection levels (serial and pool path): every returned or buffered point is an accepted
+    #      proposal, every proposal of the inner level is an accepted draw of the outer level
+    if isinstance(b, (Union, NautilusBound)):
+        if int(b.n_sample) - int(b.n_reject) != len(S) + len(b.points):
+            tests.append(('counters-do-not-account-for-samples', 99.0, {'n_sample': int(b.n_sample), 'n_reject': int(b.n_reject),
+                                                                           'returned': len(S), 'buffered': len(b.points)}))
+    if isinstance(b, NautilusBound):
+        o = b.outer_bound
+        if int(o.n_sample) - int(o.n_reject) < int(b.n_sample) or int(o.n_reject) > int(o.n_sample):
+            tests.append(('outer-counters-inconsistent-with-inner-proposals', 99.0, {
+                'outer_n_sample': int(o.n_sample), 'outer_n_reject': int(o.n_reject), 'inner_n_sample': int(b.n_sample), 'pool': bool(case.get('pool'))}))
     lo, hi = box_of(b, d)
     box_vol = float(np.prod(hi - lo))
     U = lo + (hi - lo) * rng.random((M, d))
@@ -163,8 +176,11 @@ def cases(tier, seed):
         add(cls='Union', d=d, member='E', cloud='curved', splits=3, n=200, unit=False)
     for nets in (0, 1):
         for periodic, cl in ((None, 'curved'), ([0], 'wrapped'), (None, 'face')):
-            add(cls='Nautilus', d=2, nets=nets, periodic=periodic, cloud=cl, split=True, n=260, pool=(nets == 0 and cl == 'curved'))
-        add(cls='Nautilus', d=3, nets=nets, periodic=None, cloud='curved', split=True, n=260)
+            add(cls='Nautilus', d=2, nets=nets, periodic=periodic, cloud=cl, split=True, n=260, pool=(nets == 0 and cl in ('curved', 'face')))
+        add(cls='Nautilus', d=3, nets=nets, periodic=None, cloud='curved', split=True, n=260, pool=(nets == 0))
+        add(cls='Nautilus', d=3, nets=nets, periodic=None, cloud='face', split=True, n=260, pool=(nets == 0))
+        add(cls='Nautilus', d=[2, 3][nets], nets=0, periodic=None, cloud='shell', split=True, n=600, pool=True)
+        add(cls='Union', d=[2, 3][nets], member='EM'[nets], cloud='shell', splits=6, n=600, unit=True)
     if tier == 'thorough':
         base = list(C)
         for r in range(3):
